@@ -254,13 +254,15 @@ DataFrom(elems, w, env, i) ==
 
 InitEmit(ramstart) ==
   [sets |-> << >>, defs |-> << >>, img |-> [code |-> << >>, eeprom |-> << >>],
-   end |-> [code |-> 0, data |-> ramstart, eeprom |-> 0], err |-> 0]
+   end |-> [code |-> 0, data |-> ramstart, eeprom |-> 0], err |-> 0,
+   log |-> << >>]       \* what was placed where: <<[seg, a, bytes]>> (history, for the layout theorems of MC_Layout)
 
 Unit(seg) == IF seg = "code" THEN 2 ELSE 1
 \* bytes land at the position layout assigned; the gap before them is zero-filled; nothing is overwritten
 Place(es, seg, a, bytes, mat) ==
   [es EXCEPT !.img[seg] = IF mat THEN Pad(@, Unit(seg) * a) \o bytes ELSE @,
-             !.end[seg] = a + Len(bytes) \div Unit(seg)]
+             !.end[seg] = a + Len(bytes) \div Unit(seg),
+             !.log = IF mat THEN Append(@, [seg |-> seg, a |-> a, bytes |-> bytes]) ELSE @]
 
 EmitStep(es, it, p, cx) ==
   LET env  == [pc |-> p.a, labels |-> cx.labels, sets |-> es.sets, equs |-> cx.equs]
@@ -322,4 +324,15 @@ Finish(r1, mat) ==
            msgs |-> r1.msgs, labels |-> lay.labels]
 
 Run(prog, devs, mat) == Finish(ExpandAll(ReadLines(InitRead(devs), prog)), mat)
+
+\* the same build with its intermediate states kept (for the theorems of MC_Layout)
+RunDetail(prog, devs) ==
+  LET r1   == ExpandAll(ReadLines(InitRead(devs), prog))
+      dev  == DeviceOf(r1)
+      core == Dv!CoreOf(dev.flags)
+      lay  == LayoutFrom(InitLayout(dev.ramstart), r1.items, 1, core, r1.equs)
+      cx   == [labels |-> lay.labels, equs |-> r1.equs, core |-> core, flags |-> dev.flags, mat |-> TRUE]
+      em   == IF r1.err = 0 /\ lay.err = 0 THEN EmitFrom(InitEmit(dev.ramstart), r1.items, lay.pos, 1, cx)
+              ELSE InitEmit(dev.ramstart)
+  IN [read |-> r1, lay |-> lay, em |-> em, ok |-> r1.err = 0 /\ lay.err = 0 /\ em.err = 0]
 =============================================================================
